@@ -11,10 +11,10 @@ cp OUT/patch.diff $OUT/patch.diff; cp OUT/seed_demo.rs $OUT/seed_demo.rs; cp OUT
 cp OUT/seed_demo.rs tests/seed_demo.rs
 # without the change
 git checkout -q -- src specification specification-derive 2>/dev/null
-DEMO_WITHOUT=$(cargo test --offline --test seed_demo 2>&1 | grep -E "^test result" | tail -1)
+DEMO_WITHOUT=$(cargo test --offline --features futures,derive-spec --test seed_demo 2>&1 | grep -E "^test result" | tail -1)
 git apply OUT/patch.diff || { echo "patch does not apply"; exit 2; }
-SUITE_WITH=$(cargo test --workspace --offline 2>&1 | grep -E "^test result" | grep -v "seed" | tr '\n' ';')
-DEMO_WITH=$(cargo test --offline --test seed_demo 2>&1 | grep -E "^test result" | tail -1)
+SUITE_WITH=$(cargo test --workspace --offline --features futures,derive-spec 2>&1 | grep -E "^test result" | grep -v "seed" | tr '\n' ';')
+DEMO_WITH=$(cargo test --offline --features futures,derive-spec --test seed_demo 2>&1 | grep -E "^test result" | tail -1)
 git checkout -q -- src specification specification-derive
 echo "demo without: $DEMO_WITHOUT"; echo "demo with:    $DEMO_WITH"; echo "suite with (all targets incl. demo): $SUITE_WITH"
 cd /verif
